@@ -41,6 +41,7 @@ type Style struct {
 	Decl  string `json:"decl"` // none | builtin | nameL | nameU | outline | bare
 	Lvl   int    `json:"lvl"`
 	Based int    `json:"based"`
+	Loc   string `json:"loc"` // doc (styles.xml) | auto (ODT: automatic styles of content.xml)
 }
 
 // Doc is an abstract document.
